@@ -162,7 +162,7 @@ def run_job(j):
     refc = j["ref"] if table is not None else [[int(round(v / scale)) for v in row] for row in j["ref"]]
     case = {"H": H, "W": W, "L": L, "layers": j["layers"], "ref": j["ref"], "refc": refc, "full": int(j.get("full", 0)),
             "pairs": int(j.get("pairs", 0)), "funcs": [f for f in STATS + REFF[:3] + POSF + REFF[3:] if f in funcs],
-            "haspop": int(bool(j.get("pop", True))), "tag": j.get("tag", ""), "job": j}
+            "haspop": int(bool(j.get("pop", True))), "hascomb": 1, "tag": j.get("tag", ""), "job": j}
     ds, dv = dataset(True)
     case["strides"] = [[int(s // ds[n].data.itemsize) for s in ds[n].data.strides] for n in names]
     # what np.nditer really does with arrays of these layouts (cell ids instead of values)
@@ -251,11 +251,87 @@ def run_job(j):
     return case
 
 
+ALLF = STATS + REFF[:3] + POSF + REFF[3:]
+
+
+def run_seq(j):
+    """A call SEQUENCE on ONE Dataset object whose content changes between calls.
+    job = {seq: true, H, W, vars: {name: H x W codes}, refs: {name: H x W ints}, steps: [...], tag}
+    step = {"op": "call", "func", "data_vars": [names], "ref": name}
+         | {"op": "set_cell", "var", "y", "x", "code"}        in place: ds[var].data[y, x] = value
+         | {"op": "replace", "var", "codes": grid}            ds[var] = (dims, new array)   (also adds a variable)
+         | {"op": "drop", "var"}                              ds = ds.drop_vars(var)
+    Every call yields one case whose layers are the Dataset's CURRENT content in data_vars order."""
+    H, W = j["H"], j["W"]
+    dims = ["y", "x"]
+    state = {k: [list(r) for r in g] for k, g in j["vars"].items()}
+    refs = {k: [list(r) for r in g] for k, g in j["refs"].items()}
+    ds = xr.Dataset({**{k: (dims, decode(g, "float64", 1)) for k, g in state.items()},
+                     **{k: (dims, np.array(g, dtype=np.int64)) for k, g in refs.items()}})
+    cases = []
+    skipped = {"h": H, "w": W, "g": []}
+    for n, st in enumerate(j["steps"]):
+        op = st["op"]
+        if op == "set_cell":
+            v = st["var"]
+            ds[v].data[st["y"], st["x"]] = np.nan if st["code"] == NAN else float(st["code"])
+            state[v][st["y"]][st["x"]] = st["code"]
+        elif op == "replace":
+            ds[st["var"]] = (dims, decode(st["codes"], "float64", 1))
+            state[st["var"]] = [list(r) for r in st["codes"]]
+        elif op == "drop":
+            ds = ds.drop_vars(st["var"])
+            state.pop(st["var"])
+        elif op == "call":
+            f, dv, rv = st["func"], st["data_vars"], st.get("ref", "ref")
+            L = len(dv)
+            case = {"H": H, "W": W, "L": L, "layers": [[list(r) for r in state[v]] for v in dv], "ref": refs[rv], "refc": refs[rv],
+                    "full": 0, "pairs": 0, "funcs": [f] if f in ALLF else [], "haspop": int(f == "popularity"),
+                    "hascomb": int(f == "combine"), "strides": [[W, 1]] * L, "iter": [], "iterK": [],
+                    "out": {g: skipped for g in ALLF}, "pop": skipped, "comb": skipped, "key": [],
+                    "tag": "%s#%d:%s" % (j.get("tag", "seq"), n, f), "job": j}
+            try:
+                if f in STATS:
+                    r = LOC.cell_stats(ds, data_vars=list(dv), func=f)
+                    den = {"mean": L, "median": 2, "std": L * L}.get(f, 1)
+                    case["out"] = dict(case["out"])
+                    case["out"][f] = grid(r.data, lambda v, den=den, f=f: rat(v, 1, den, square=(f == "std")))
+                elif f in REFF:
+                    r = getattr(LOC, f)(ds, ref_var=rv, data_vars=list(dv))
+                    case["out"] = dict(case["out"])
+                    case["out"][f] = grid(r.data, lambda v: rat(v, 1, 1))
+                elif f in POSF:
+                    r = getattr(LOC, f)(ds, data_vars=list(dv))
+                    case["out"] = dict(case["out"])
+                    case["out"][f] = grid(r.data, lambda v: rat(v, 1, 1))
+                elif f == "popularity":
+                    r = LOC.popularity(ds, ref_var=rv, data_vars=list(dv))
+                    case["pop"] = grid(r.data, lambda v: rat(v, 1, 1))
+                    case["pairs"] = 1
+                elif f == "combine":
+                    r = LOC.combine(ds, data_vars=list(dv))
+
+                    def cid(v):
+                        v = float(v)
+                        return NAN if math.isnan(v) else (int(v) if v == int(v) and 0 <= v < 10 ** 6 else -98)
+                    case["comb"] = grid(r.data, cid)
+                    key = r.attrs.get("key")
+                    case["key"] = [[small_int(k), [small_int(x) for x in t]] for k, t in key.items()] \
+                        if isinstance(key, dict) else [[-98, [-98]]]
+                    case["pairs"] = 1
+            except Exception as ex:
+                case["error"] = {f: "%s: %s" % (type(ex).__name__, str(ex)[:200])}
+            cases.append(case)
+        else:
+            raise ValueError(op)
+    return {"cases": cases}
+
+
 def main():
     jobs = json.load(sys.stdin)["jobs"]
     o = sys.stdout
     for j in jobs:
-        o.write(json.dumps(run_job(j)) + "\n")
+        o.write(json.dumps(run_seq(j) if j.get("seq") else run_job(j)) + "\n")
     o.flush()
 
 
